@@ -157,8 +157,21 @@ def h2up (method frames : String) (impl : List String) : String :=
   match impl with
   | [r1, r2, same] =>
     let spec := !(r1.startsWith "hang") && !(r2.startsWith "hang")
+    let toks := frames.splitOn "+"
     let m : String :=
-      match upstreamVerdict method false (frames.splitOn "+") with
+      if toks.getLast? == some "C" && (upstreamVerdict method false toks.dropLast).isNone then
+        -- the peer closes the connection under the request: the read goroutine delivers the close event to
+        -- clientStreamConnection.OnEvent and then to stream.client.OnEvent -> Reset, which resets the stream while it
+        -- HOLDS the mutex; request 2 goes to a fresh connection (its own mutex)
+        match clientPaths.find? (fun p => p.fn == "OnEvent"),
+              clientPaths.find? (fun p => p.fn == "Reset" && p.conds.any (fun c => c.endsWith " x1")) with
+        | some po, some pr =>
+          let s := runBoth (Sys.start [flatten clientAcquires po.acts ++ flatten clientAcquires pr.acts, []])
+          let done0 : Bool := (s.threads[0]?.map Thread.done).getD false
+          s!"{if done0 then "reset:ConnectionTermination" else "hang"} resp new"
+        | _, _ => "nopath"
+      else
+      match upstreamVerdict method false toks with
       | none => "waiting"
       | some true => "resp resp same"
       | some false =>
@@ -172,7 +185,13 @@ def h2up (method frames : String) (impl : List String) : String :=
           -- a second request that never gets through endStream never reaches the peer (`none`)
           s!"{if done 0 then "reset:StreamRemoteReset" else "hang"} {if done 1 then "resp same" else "hang none"}"
         | _, _ => "nopath"
-    s!"{if m == s!"{r1} {r2} {same}" then "A" else "D"} {if spec then "S" else "V"} {m}"
+    -- a POST body is still being written when the stream is reset: the request may learn of it from the read
+    -- goroutine (StreamRemoteReset) or from its own failing write (StreamLocalReset); the reason is not compared then
+    let kind (r : String) : String := if method == "POST" && r.startsWith "reset:" then "reset" else r
+    let agree := match m.splitOn " " with
+      | [m1, m2, m3] => kind m1 == kind r1 && m2 == r2 && m3 == same
+      | _ => false
+    s!"{if agree then "A" else "D"} {if spec then "S" else "V"} {m}"
   | _ => "E E bad-case"
 end h2up
 
